@@ -14,6 +14,7 @@ import (
 	"runtime/debug"
 	"sort"
 	"strings"
+	"sync"
 
 	"github.com/bluenviron/gortsplib/v5"
 	"github.com/bluenviron/gortsplib/v5/pkg/base"
@@ -37,7 +38,12 @@ type StreamCase struct {
 	Elems    []ElemSpec `json:"elems,omitempty"`     // written cases: the elements; a replay serialises them again with the real code
 }
 
+var violMu sync.Mutex // violations may be reported from the goroutines of the concurrent workloads
+
 func viol(c *corr.Ctx, in any, clause, key, detail string) {
+	violMu.Lock()
+	defer violMu.Unlock()
+	c.Dist("violation-" + key)
 	c.Violate(corr.Violation{Property: "C04", Clause: clause, Key: key, Where: "pkg/conn pkg/base internal/base64streamreader", Input: in, Detail: detail})
 }
 
